@@ -1,7 +1,9 @@
 #!/usr/bin/env python3
-"""Translators T2 + T4 (DESIGN.md §5): regenerate lean/Tbfmm/Generated/OmpTasks.lean from
-  * every `#pragma omp task` of src/algorithms/openmp/*.hpp  (clauses, body, enclosing lambda), and
-  * the accessor footprint of every wrapper of src/algorithms/sequential/tbfgroupkernelinterface.hpp.
+"""Translators T2 + T4 + T6 (DESIGN.md §5): regenerate lean/Tbfmm/Generated/OmpTasks.lean from
+  * every `#pragma omp task` of src/algorithms/openmp/*.hpp  (clauses, body, enclosing lambda),
+  * the accessor footprint of every wrapper of src/algorithms/sequential/tbfgroupkernelinterface.hpp,
+  * every `runtime.task(...)` of the two Specx CPU executors (declared accesses, capture list, body), and
+  * every `starpu_insert_task(...)` of the two StarPU CPU executors with its codelet, its callback and the handle builders.
 Fails closed: a pragma / wrapper that is not understood raises TranslateError."""
 import os
 import re
@@ -16,7 +18,8 @@ KINDS = {"getDataPtr": "data", "getMultipolePtr": "multipole", "getLocalPtr": "l
 ACCESSOR_KIND = {"getCellMultipole": "multipole", "getCellLocal": "local", "getParticleRhs": "rhs", "getParticleData": "data",
                  "getParticleIndexes": "data", "getLeafSymbData": "data", "getNbParticlesInLeaf": "data"}
 KEYWORDS = {"delete", "std", "move", "const", "auto", "return", "if", "else", "for", "while", "new", "this", "long", "int", "true", "false"}
-STATIC_FUNCS = {"omp_get_thread_num"}
+STATIC_FUNCS = {"omp_get_thread_num", "SpUtils"}
+SPECX_FILES = ["src/algorithms/smspecx/tbfsmspecxalgorithm.hpp", "src/algorithms/smspecx/tbfsmspecxalgorithmtsm.hpp"]
 
 
 class TranslateError(Exception):
@@ -183,6 +186,356 @@ def parse_tasks():
     return tasks
 
 
+def balanced(text, start, open_ch="(", close_ch=")"):
+    """index of the bracket closing the one at `start`"""
+    depth = 0
+    for i in range(start, len(text)):
+        if text[i] == open_ch:
+            depth += 1
+        elif text[i] == close_ch:
+            depth -= 1
+            if depth == 0:
+                return i
+    raise TranslateError("unbalanced %s%s" % (open_ch, close_ch))
+
+
+def split_top(text):
+    """split at commas that are outside (), [], {}"""
+    out, cur, depth = [], "", 0
+    for ch in text:
+        if ch in "([{":
+            depth += 1
+        elif ch in ")]}":
+            depth -= 1
+        if ch == "," and depth == 0:
+            out.append(cur.strip())
+            cur = ""
+        else:
+            cur += ch
+    if cur.strip():
+        out.append(cur.strip())
+    return out
+
+
+def body_calls(body):
+    calls = []
+    for cm in re.finditer(r"\bkernelWrapper(?:Ptr)?\s*(?:\.|->)\s*(\w+)\s*\(", body):
+        i = balanced(body, cm.end() - 1)
+        calls.append((cm.group(1), split_top(body[cm.end():i])))
+    return calls
+
+
+def body_refs(body):
+    refs = set()
+    for im in re.finditer(r"(?<![\w\.>:])([A-Za-z_]\w*)\b", body):
+        name = im.group(1)
+        prev = body[:im.start()].rstrip()
+        if prev.endswith(".") or prev.endswith("->") or prev.endswith("::"):
+            continue
+        if name in KEYWORDS or name in STATIC_FUNCS:
+            continue
+        refs.add(name)
+    return refs
+
+
+def reference_bound(text, pos, name):
+    """is `name`, as visible at `pos`, a C++ reference bound to an object owned by the tree?  True for
+    `auto& name = *iterator;` / `const auto& name = *iterator;` and for a reference parameter of the enclosing callback
+    of TbfMapIndexesAndBlocks (which receives elements of the group container)."""
+    before = text[:pos]
+    decls = list(re.finditer(r"(?:const\s+)?auto\s*(&?)\s*%s\s*(=\s*([^;]*);|[,)])" % re.escape(name), before))
+    if not decls:
+        return False
+    d = decls[-1]
+    if d.group(1) != "&":
+        return False
+    if d.group(3) is not None:                       # local reference: must be bound to a dereferenced iterator
+        return re.fullmatch(r"\*\s*\w+", d.group(3).strip()) is not None
+    return True                                      # reference parameter of the enclosing callback
+
+
+def parse_specx_tasks():
+    tasks = []
+    for rel in SPECX_FILES:
+        text = open(os.path.join(common.REPO, rel)).read()
+        for m in re.finditer(r"\bruntime\s*\.\s*task\s*\(", text):
+            line = text.count("\n", 0, m.start()) + 1
+            end = balanced(text, m.end() - 1)
+            args = split_top(text[m.end():end])
+            fn, in_lambda = enclosing_function_specx(text, m.start())
+            if fn is None:
+                raise TranslateError("%s:%d no enclosing member function" % (rel, line))
+            if not args or not args[-1].startswith("["):
+                raise TranslateError("%s:%d last argument of runtime.task is not a lambda" % (rel, line))
+            reads, commutes, modes = [], [], []
+            for a in args[:-1]:
+                if re.match(r"SpPriority\s*\(", a):
+                    continue
+                am = re.fullmatch(r"(SpRead|SpWrite|SpCommutativeWrite)\s*\(\s*\*\s*(\w+)\s*(?:\.|->)\s*(get\w+Ptr)\s*\(\s*\)\s*\)", a)
+                if not am or am.group(3) not in KINDS:
+                    raise TranslateError("%s:%d cannot read the access declaration %r" % (rel, line, a))
+                item = (am.group(2), KINDS[am.group(3)])
+                if am.group(1) == "SpRead":
+                    reads.append(item)
+                    modes.append(False)
+                else:
+                    commutes.append(item)
+                    modes.append(True)
+            lam = args[-1]
+            ce = balanced(lam, 0, "[", "]")
+            caps = split_top(lam[1:ce])
+            po = lam.find("(", ce)
+            if lam[ce + 1:po].strip():
+                raise TranslateError("%s:%d unexpected text between capture list and parameters" % (rel, line))
+            pe = balanced(lam, po)
+            params = split_top(lam[po + 1:pe])
+            bo = lam.find("{", pe)
+            if lam[pe + 1:bo].strip() not in ("", "mutable"):
+                raise TranslateError("%s:%d unexpected lambda declarator" % (rel, line))
+            body = lam[bo + 1:balanced(lam, bo, "{", "}")]
+            by_value, by_ref, this_cap, default_ref = [], [], False, False
+            for c in caps:
+                if c == "this":
+                    this_cap = True
+                elif c == "&":
+                    default_ref = True
+                elif c == "=":
+                    raise TranslateError("%s:%d default by-copy capture is not modelled" % (rel, line))
+                elif c.startswith("&"):
+                    by_ref.append(c[1:].strip())
+                else:
+                    by_value.append(c.split("=")[0].strip())
+            param_const = []
+            for prm in params:
+                pm = re.fullmatch(r"(const\s+)?unsigned\s+char\s*&\s*\w*", prm)
+                if not pm:
+                    raise TranslateError("%s:%d unexpected task parameter %r" % (rel, line, prm))
+                param_const.append(bool(pm.group(1)))
+            calls = body_calls(body)
+            if not calls:
+                raise TranslateError("%s:%d no kernelWrapper call in the task body" % (rel, line))
+            refs = body_refs(body)
+            tasks.append({"file": os.path.basename(rel), "line": line, "fn": fn, "in_lambda": in_lambda, "reads": reads, "commutes": commutes,
+                          "modes": modes, "param_const": param_const, "by_value": by_value, "by_ref": by_ref, "this": this_cap, "default_ref": default_ref,
+                          "ref_decl": [n for n in by_ref if reference_bound(text, m.start(), n)], "refs": sorted(refs), "calls": calls})
+    if len(tasks) < 12:
+        raise TranslateError("only %d Specx task submissions recognised" % len(tasks))
+    return tasks
+
+
+def enclosing_function_specx(text, pos):
+    fn = None
+    for m in re.finditer(r"^\s*void\s+(\w+)\s*\(\s*SpTaskGraph<[^>]*>\s*&\s*\w+\s*,\s*TreeClass\s*&\s*\w+\s*\)\s*\{", text, re.M):
+        b = text.find("{", m.end() - 1)
+        e = matching_brace(text, b)
+        if b < pos < e:
+            fn = m.group(1)
+    _, in_lambda = enclosing_function(text, pos)
+    return fn, in_lambda
+
+
+STARPU_DIR = "src/algorithms/smstarpu"
+STARPU_FILES = ["tbfsmstarpualgorithm.hpp", "tbfsmstarpualgorithmtsm.hpp"]
+STARPU_PHASES = ("P2M", "M2M", "M2L", "L2L", "L2P", "P2P")
+
+
+def norm_type(t):
+    t = " ".join(t.replace("typename", "").split())
+    if t.endswith("*"):
+        return "ptr"
+    return t
+
+
+def starpu_mode(expr):
+    """True for a write access, False for a read"""
+    e = expr.replace(" ", "")
+    if e == "STARPU_R":
+        return False
+    if e in ("STARPU_RW", "STARPU_W", "starpu_data_access_mode(STARPU_RW|STARPU_COMMUTE)", "starpu_data_access_mode(STARPU_COMMUTE|STARPU_RW)"):
+        return True
+    raise TranslateError("unknown StarPU access mode %r" % expr)
+
+
+def parse_starpu_builders():
+    """(builder class, function) -> buffer kind of every slot of the handle arrays it returns"""
+    text = open(os.path.join(common.REPO, STARPU_DIR, "tbfsmstarpuutils.hpp")).read()
+    out = {}
+    classes = [(m.start(), m.group(1)) for m in re.finditer(r"^class\s+(\w+)\s*\{", text, re.M)]
+    for m in re.finditer(r"static\s+auto\s+(Get\w+Handles)\s*\([^)]*\)\s*\{", text):
+        cls = [c for p, c in classes if p < m.start()][-1]
+        b = text.find("{", m.end() - 1)
+        body = text[b:matching_brace(text, b)]
+        kinds = {}
+        for r in re.finditer(r"starpu_variable_data_register\s*\(\s*&\s*(\w+)\s*,\s*STARPU_MAIN_RAM\s*,\s*uintptr_t\s*\(\s*\w+\s*->\s*(get\w+Ptr)\s*\(\s*\)\s*\)", body):
+            if r.group(2) not in KINDS:
+                raise TranslateError("unknown buffer accessor %s in %s" % (r.group(2), m.group(1)))
+            kinds[r.group(1)] = KINDS[r.group(2)]
+        arr = re.findall(r"std::array<\s*starpu_data_handle_t\s*,\s*(\d+)\s*>\s*\w+\s*\{([^}]*)\}", body)
+        if len(arr) != 1:
+            raise TranslateError("cannot find the handle array of %s" % m.group(1))
+        names = [x.strip() for x in arr[0][1].split(",")]
+        if len(names) != int(arr[0][0]) or any(n not in kinds for n in names):
+            raise TranslateError("cannot resolve the handle array of %s" % m.group(1))
+        out[(cls, m.group(1))] = [kinds[n] for n in names]
+    if len(out) < 6:
+        raise TranslateError("only %d StarPU handle builders recognised" % len(out))
+    return out
+
+
+def parse_starpu_callbacks():
+    text = open(os.path.join(common.REPO, STARPU_DIR, "tbfsmstarpucallbacks.hpp")).read()
+    cbs = []
+    for m in re.finditer(r"static\s+void\s+(\w+)\s*\(\s*void\s*\*\s*buffers\s*\[\s*\]\s*,\s*void\s*\*\s*cl_arg\s*\)\s*\{", text):
+        b = text.find("{", m.end() - 1)
+        body = text[b + 1:matching_brace(text, b)]
+        um = re.search(r"starpu_codelet_unpack_args\s*\(\s*cl_arg\s*,([^;]*)\)\s*;", body)
+        if not um:
+            raise TranslateError("callback %s does not unpack its arguments" % m.group(1))
+        unpack = [x.strip().lstrip("&").strip() for x in um.group(1).split(",")]
+        types = []
+        for n in unpack:
+            d = re.search(r"^\s*([\w:\s\*]+?)\s*\b%s\s*;" % re.escape(n), body, re.M)
+            if not d:
+                raise TranslateError("callback %s: no declaration of %s" % (m.group(1), n))
+            types.append(norm_type(d.group(1)))
+        bufvar = {}
+        for r in re.finditer(r"unsigned\s+char\s*\*\s*(\w+)\s*=\s*\(\s*unsigned\s+char\s*\*\s*\)\s*STARPU_VARIABLE_GET_PTR\s*\(\s*buffers\s*\[\s*(\d+)\s*\]\s*\)\s*;", body):
+            bufvar[r.group(1)] = int(r.group(2))
+        sizevar = {}
+        for r in re.finditer(r"size_t\s+(\w+)\s*=\s*STARPU_VARIABLE_GET_ELEMSIZE\s*\(\s*buffers\s*\[\s*(\d+)\s*\]\s*\)\s*;", body):
+            sizevar[r.group(1)] = int(r.group(2))
+        containers = []
+        for r in re.finditer(r"(?:const\s+)?\b(\w*ContainerClass\w*)\s+(\w+)\s*\(([^;]*)\)\s*;", body):
+            args = split_top(r.group(3))
+            layout = ["data", "multipole", "local"] if r.group(1).startswith("Cell") else ["data", "rhs"] if r.group(1).startswith("Particle") else None
+            if layout is None or len(args) != 2 * len(layout):
+                raise TranslateError("callback %s: cannot read the construction of %s" % (m.group(1), r.group(2)))
+            slots = []
+            for k, kind in enumerate(layout):
+                p, sz = args[2 * k], args[2 * k + 1]
+                if p == "nullptr":
+                    if sz != "0":
+                        raise TranslateError("callback %s: %s has a null %s buffer with a size" % (m.group(1), r.group(2), kind))
+                    continue
+                if p not in bufvar or sizevar.get(sz) != bufvar[p]:
+                    raise TranslateError("callback %s: %s is not built from one StarPU buffer and its size (%s, %s)" % (m.group(1), r.group(2), p, sz))
+                slots.append((kind, bufvar[p]))
+            containers.append((r.group(2), slots))
+        calls = []
+        for cm in re.finditer(r"\bthisptr\s*->\s*kernelWrapper\s*\.\s*(\w+)\s*\(", body):
+            i = balanced(body, cm.end() - 1)
+            calls.append((cm.group(1), [arg_group(a) or "" for a in split_top(body[cm.end():i])]))
+        if not calls:
+            raise TranslateError("callback %s calls no wrapper" % m.group(1))
+        cbs.append({"name": m.group(1), "unpack_types": types, "containers": containers, "calls": calls})
+    if len(cbs) < 10:
+        raise TranslateError("only %d StarPU callbacks recognised" % len(cbs))
+    return cbs
+
+
+def classify_value(text, pos, var):
+    before = text[:pos]
+    d = list(re.finditer(r"([\w:\s\*]+?)\b%s\s*=\s*([^;]*);" % re.escape(var), before))
+    if var == "idxLevel":
+        return "scalar"
+    if not d:
+        return "unknown"
+    init = d[-1].group(2).strip()
+    if init == "this":
+        return "this"
+    if re.fullmatch(r"inTree\s*\.\s*get\w+\s*\([^()]*\)\s*\[[^\]]*\]\s*\.\s*get\w+Ptr\s*\(\s*\)", init):
+        return "treeptr"
+    if re.fullmatch(r"inTree\s*\.\s*get\w+\s*\([^()]*\)\s*\[[^\]]*\]\s*\.\s*get\w+Size\s*\(\s*\)", init):
+        return "scalar"
+    if re.fullmatch(r"&\s*vecIndexBuffer\s*\.\s*back\s*\(\s*\)", init):
+        return "indexbuf"
+    return "unknown"
+
+
+def parse_starpu_files():
+    builders = parse_starpu_builders()
+    files, codelets, tasks, layouts = [], [], [], []
+    for base in STARPU_FILES:
+        text = open(os.path.join(common.REPO, STARPU_DIR, base)).read()
+        # execute(): handle containers and which phase receives which
+        em = re.search(r"void\s+execute\s*\(\s*TreeClass\s*&\s*inTree[^)]*\)\s*\{", text)
+        if not em:
+            raise TranslateError("%s: no execute()" % base)
+        eb = text.find("{", em.end() - 1)
+        ebody = text[eb:matching_brace(text, eb)]
+        hv = {}
+        for r in re.finditer(r"auto\s+(\w+)\s*=\s*(\w+)::(Get\w+Handles)\s*\(", ebody):
+            if (r.group(2), r.group(3)) not in builders:
+                raise TranslateError("%s: unknown handle builder %s::%s" % (base, r.group(2), r.group(3)))
+            hv[r.group(1)] = builders[(r.group(2), r.group(3))]
+        wait = ebody.find("starpu_task_wait_for_all")
+        clear = [r.start() for r in re.finditer(r"vecIndexBuffer\s*\.\s*(clear|pop_\w+|erase|resize)\s*\(", text)]
+        cleared_after_wait = wait >= 0 and all(eb + wait < c < eb + len(ebody) for c in clear)
+        stable = re.search(r"std::list<\s*VecOfIndexes\s*>\s*vecIndexBuffer\s*;", text) is not None
+        files.append({"file": base, "stable": stable, "cleared_after_wait": cleared_after_wait})
+        for ph in STARPU_PHASES:
+            calls = re.findall(r"\b%s\s*\(\s*inTree\s*((?:,\s*\w+\s*)*)\)\s*;" % ph, ebody)
+            dm = re.search(r"void\s+%s\s*\(\s*TreeClass\s*&\s*inTree\s*((?:,\s*\w+\s*&\s*\w+\s*)*)\)\s*\{" % ph, text)
+            if len(calls) != 1 or not dm:
+                raise TranslateError("%s: cannot relate execute() to %s" % (base, ph))
+            actual = [a.strip() for a in calls[0].split(",") if a.strip()]
+            formal = [a.split("&")[1].strip() for a in dm.group(1).split(",") if a.strip()]
+            if len(actual) != len(formal) or any(a not in hv for a in actual):
+                raise TranslateError("%s: cannot resolve the handle arguments of %s" % (base, ph))
+            for a, f in zip(actual, formal):
+                layouts.append(((base, ph, f), hv[a]))
+        # codelets
+        cl = {}
+        for r in re.finditer(r"\b(\w+)\s*\.\s*cpu_funcs\s*\[\s*0\s*\]\s*=\s*&\s*TbfSmStarpuCallbacks::(\w+)\s*<", text):
+            cl[r.group(1)] = {"file": base, "name": r.group(1), "callback": r.group(2), "modes": {}, "nbuffers": None}
+        for r in re.finditer(r"\b(\w+)\s*\.\s*nbuffers\s*=\s*(\d+)\s*;", text):
+            if r.group(1) in cl:
+                cl[r.group(1)]["nbuffers"] = int(r.group(2))
+        for r in re.finditer(r"\b(\w+)\s*\.\s*modes\s*\[\s*(\d+)\s*\]\s*=\s*([^;]*);", text):
+            if r.group(1) in cl:
+                cl[r.group(1)]["modes"][int(r.group(2))] = starpu_mode(r.group(3))
+        for c in cl.values():
+            if c["nbuffers"] is None or sorted(c["modes"]) != list(range(c["nbuffers"])):
+                raise TranslateError("%s: codelet %s declares %r buffers but modes %r" % (base, c["name"], c["nbuffers"], sorted(c["modes"])))
+            c["modes"] = [c["modes"][i] for i in range(c["nbuffers"])]
+            codelets.append(c)
+        # submissions
+        for m in re.finditer(r"\bstarpu_insert_task\s*\(", text):
+            line = text.count("\n", 0, m.start()) + 1
+            end = balanced(text, m.end() - 1)
+            args = split_top(text[m.end():end])
+            fn = None
+            for ph in STARPU_PHASES:
+                dm = re.search(r"void\s+%s\s*\(\s*TreeClass\s*&\s*inTree[^)]*\)\s*\{" % ph, text)
+                b = text.find("{", dm.end() - 1)
+                if b < m.start() < matching_brace(text, b):
+                    fn = ph
+            cm = re.fullmatch(r"&\s*(\w+)", args[0])
+            if fn is None or not cm or args[-1] != "0":
+                raise TranslateError("%s:%d cannot read the task submission" % (base, line))
+            values, handles, i = [], [], 1
+            while i < len(args) - 1:
+                a = args[i]
+                if a == "STARPU_VALUE":
+                    vm, sm = re.fullmatch(r"&\s*(\w+)", args[i + 1]), re.fullmatch(r"sizeof\s*\(([^)]*)\)", args[i + 2])
+                    if not vm or not sm:
+                        raise TranslateError("%s:%d cannot read STARPU_VALUE %s %s" % (base, line, args[i + 1], args[i + 2]))
+                    values.append((vm.group(1), classify_value(text, m.start(), vm.group(1)), norm_type(sm.group(1))))
+                    i += 3
+                elif a in ("STARPU_PRIORITY", "STARPU_NAME"):
+                    i += 2
+                else:
+                    hm = re.fullmatch(r"(\w+)((?:\s*\[[^\]]*\])+)\s*\[\s*(\d+)\s*\]", args[i + 1])
+                    if not hm:
+                        raise TranslateError("%s:%d cannot read the handle %r" % (base, line, args[i + 1]))
+                    handles.append((starpu_mode(a), hm.group(1), "".join(hm.group(2).split()), int(hm.group(3))))
+                    i += 2
+            tasks.append({"file": base, "line": line, "fn": fn, "codelet": cm.group(1), "handles": handles, "values": values})
+    if len(tasks) < 12:
+        raise TranslateError("only %d StarPU task submissions recognised" % len(tasks))
+    return files, codelets, tasks, layouts, parse_starpu_callbacks()
+
+
 def parse_footprints():
     """wrapper -> list of (parameter position among the call arguments, buffer kind, 'r'|'w')"""
     text = open(os.path.join(common.REPO, IFACE)).read()
@@ -279,6 +632,43 @@ def generate():
             ", ".join(lean_str(x) for x in t["refs"]),
             ", ".join(calls)))
     out.append(",\n".join(rows) + "]")
+    out.append("")
+    out.append("def specxTasks : List SpecxTask := [")
+    rows = []
+    for t in parse_specx_tasks():
+        calls = ["(%s, [%s])" % (lean_str(name), ", ".join(lean_str(arg_group(a) or "") for a in args)) for name, args in t["calls"]]
+        pairs = lambda l: ", ".join("(%s, %s)" % (lean_str(g), lean_str(k)) for g, k in l)
+        strs = lambda l: ", ".join(lean_str(x) for x in l)
+        bools = lambda l: ", ".join("true" if x else "false" for x in l)
+        rows.append("  { file := %s, line := %d, fn := %s, inLambda := %s,\n    reads := [%s], commutes := [%s], modes := [%s], paramConst := [%s],\n"
+                    "    byValue := [%s], byRef := [%s], capturesThis := %s, defaultRef := %s, refDecl := [%s],\n    refs := [%s],\n    calls := [%s] }" % (
+                        lean_str(t["file"]), t["line"], lean_str(t["fn"]), "true" if t["in_lambda"] else "false", pairs(t["reads"]), pairs(t["commutes"]),
+                        bools(t["modes"]), bools(t["param_const"]), strs(t["by_value"]), strs(t["by_ref"]), "true" if t["this"] else "false",
+                        "true" if t["default_ref"] else "false", strs(t["ref_decl"]), strs(t["refs"]), ", ".join(calls)))
+    out.append(",\n".join(rows) + "]")
+    out.append("")
+    sfiles, scodelets, stasks, slayouts, scallbacks = parse_starpu_files()
+    b = lambda x: "true" if x else "false"
+    out.append("def starpuFiles : List StarpuFile := [")
+    out.append(",\n".join("  { file := %s, indexBufferStable := %s, clearedAfterWait := %s }" % (lean_str(f["file"]), b(f["stable"]), b(f["cleared_after_wait"])) for f in sfiles) + "]")
+    out.append("")
+    out.append("def starpuLayouts : List ((String × String × String) × List String) := [")
+    out.append(",\n".join("  ((%s, %s, %s), [%s])" % (lean_str(k[0]), lean_str(k[1]), lean_str(k[2]), ", ".join(lean_str(x) for x in v)) for k, v in slayouts) + "]")
+    out.append("")
+    out.append("def starpuCodelets : List StarpuCodelet := [")
+    out.append(",\n".join("  { file := %s, name := %s, callback := %s, modes := [%s] }" % (lean_str(c["file"]), lean_str(c["name"]), lean_str(c["callback"]), ", ".join(b(x) for x in c["modes"])) for c in scodelets) + "]")
+    out.append("")
+    out.append("def starpuCallbacks : List StarpuCallback := [")
+    out.append(",\n".join("  { name := %s, unpackTypes := [%s],\n    containers := [%s],\n    calls := [%s] }" % (
+        lean_str(c["name"]), ", ".join(lean_str(x) for x in c["unpack_types"]),
+        ", ".join("(%s, [%s])" % (lean_str(n), ", ".join("(%s, %d)" % (lean_str(k), j) for k, j in sl)) for n, sl in c["containers"]),
+        ", ".join("(%s, [%s])" % (lean_str(w), ", ".join(lean_str(a) for a in args)) for w, args in c["calls"])) for c in scallbacks) + "]")
+    out.append("")
+    out.append("def starpuTasks : List StarpuTask := [")
+    out.append(",\n".join("  { file := %s, line := %d, fn := %s, codelet := %s,\n    handles := [%s],\n    values := [%s] }" % (
+        lean_str(t["file"]), t["line"], lean_str(t["fn"]), lean_str(t["codelet"]),
+        ", ".join("(%s, %s, %s, %d)" % (b(w), lean_str(a), lean_str(i), k) for w, a, i, k in t["handles"]),
+        ", ".join("(%s, %s, %s)" % (lean_str(v), lean_str(c), lean_str(ty)) for v, c, ty in t["values"])) for t in stasks) + "]")
     out.append("")
     out.append("end Tbfmm.Generated")
     return "\n".join(out) + "\n", tasks, fps
